@@ -9,6 +9,8 @@ def parseEv? (s : String) : Option Ev :=
   | ["c", k] => k.toNat?.map .chunk
   | ["i"] => some .intr
   | ["e"] => some .err
+  -- every `io::ErrorKind` other than `Interrupted` is a failure of the reader
+  | ["e", _] => some .err
   | _ => none
 
 def parseRop? (s : String) : Option ReadGen.Op :=
